@@ -39,26 +39,35 @@ impl Ctx {
 }
 
 pub fn run_cases(ctx: &Ctx, n: u64, f: impl Fn(u64) -> CaseOut + Sync) -> Summary {
-    let next = AtomicU64::new(0);
-    let results: Mutex<Vec<(u64, CaseOut)>> = Mutex::new(Vec::new());
-    std::thread::scope(|s| {
-        for _ in 0..ctx.threads {
-            s.spawn(|| loop {
-                let i = next.fetch_add(1, Ordering::Relaxed);
-                if i >= n {
-                    break;
-                }
-                let c = f(i);
-                util::done_flight();
-                results.lock().unwrap().push((i, c));
-            });
-        }
-    });
-    let mut v = results.into_inner().unwrap();
-    v.sort_by_key(|x| x.0);
+    // in slices of a few thousand indices, so that the results of a deep run are absorbed (and their
+    // requests thinned) as they come instead of being held until the end; results are absorbed in
+    // index order, so the outcome does not depend on thread scheduling
     let mut s = Summary::default();
-    for (_, c) in v {
-        s.absorb(c);
+    let slice = 4096u64;
+    let mut lo = 0u64;
+    while lo < n {
+        let hi = (lo + slice).min(n);
+        let next = AtomicU64::new(lo);
+        let results: Mutex<Vec<(u64, CaseOut)>> = Mutex::new(Vec::new());
+        std::thread::scope(|sc| {
+            for _ in 0..ctx.threads {
+                sc.spawn(|| loop {
+                    let i = next.fetch_add(1, Ordering::Relaxed);
+                    if i >= hi {
+                        break;
+                    }
+                    let c = f(i);
+                    util::done_flight();
+                    results.lock().unwrap().push((i, c));
+                });
+            }
+        });
+        let mut v = results.into_inner().unwrap();
+        v.sort_by_key(|x| x.0);
+        for (_, c) in v {
+            s.absorb(c);
+        }
+        lo = hi;
     }
     s
 }
@@ -75,7 +84,9 @@ pub fn merge(a: &mut Summary, b: Summary) {
             a.samples.push(s);
         }
     }
-    a.requests.extend(b.requests);
+    for r in b.requests {
+        a.push_request(r);
+    }
 }
 
 fn write_summary(ctx: &Ctx, prop: &str, s: &Summary, rule: &str, extra: &str) {
